@@ -7,12 +7,26 @@
 
 namespace etl {
 
+namespace detail {
+
+/// The common factors are cancelled before the products are formed: both
+/// products are the members of the result, nothing larger is computed.
+template <typename R1, typename R2>
+struct ratio_multiply_impl {
+    static constexpr intmax_t gcd1 = gcd(R1::num, R2::den);
+    static constexpr intmax_t gcd2 = gcd(R2::num, R1::den);
+
+    using type = typename ratio<(R1::num / gcd1) * (R2::num / gcd2), (R1::den / gcd2) * (R2::den / gcd1)>::type;
+};
+
+} // namespace detail
+
 /// \brief The alias template ratio_multiply denotes the result of
 /// multiplying two exact rational fractions represented by the ratio
 /// specializations R1 and R2.
 /// \ingroup ratio
 template <typename R1, typename R2>
-using ratio_multiply = typename ratio<R1::num * R2::num, R1::den * R2::den>::type;
+using ratio_multiply = typename detail::ratio_multiply_impl<R1, R2>::type;
 
 } // namespace etl
 
